@@ -38,6 +38,9 @@ pub struct SchedState {
     /// directed rival-split script: notarization votes for `slot` between the two validators in `pair`
     /// are held back, and notarization certificates for `slot` travel slowly (see clusterrun)
     pub rival: Option<RivalSched>,
+    /// after stabilisation: dissemination traffic to this validator takes the full delta, everything else
+    /// at most an eighth of it (one consistently slow, but timely, correct node)
+    pub slow_diss: Option<usize>,
 }
 
 #[derive(Clone, Debug)]
@@ -111,6 +114,14 @@ pub fn install_scheduler(cl: &Cluster, st: Arc<Mutex<SchedState>>) {
             }
         }
         if d.t >= s.t_stable {
+            if let Some(slow) = s.slow_diss {
+                let us = s.delta.as_micros() as u64;
+                if d.to.0 == Ep::Diss && d.to.1 == slow {
+                    return vec![Duration::from_micros(us)];
+                }
+                let x = s.rng.random_range(0..=us / 8);
+                return vec![Duration::from_micros(x)];
+            }
             let ms = s.delta.as_micros() as u64;
             let x = if ms == 0 { 0 } else { s.rng.random_range(0..=ms) };
             return vec![Duration::from_micros(x)];
@@ -149,6 +160,8 @@ pub enum ByzVote {
     Split,
     FakeBlock,
     LateFinal,
+    /// notarizes every block it sees, never casts a finalization vote
+    NotarOnly,
     /// rival-split script: notarizes both versions (version A only towards the Y group, so that the X
     /// group sees nothing but its own votes for A), finalization vote to everybody
     RivalScript,
@@ -254,6 +267,9 @@ pub fn byz_step(cl: &Cluster, st: &mut ByzState, rng: &mut SRng) {
                     send_vote(cl, st, b, VK::Notar, slot, Some(fake), &correct);
                     send_vote(cl, st, b, VK::NotarFallback, slot, Some(h), &correct);
                     send_vote(cl, st, b, VK::Final, slot, None, &correct);
+                }
+                ByzVote::NotarOnly => {
+                    send_vote(cl, st, b, VK::Notar, slot, Some(h), &correct);
                 }
                 ByzVote::RivalScript => {
                     // a block first voted for by the X group is version A
